@@ -101,6 +101,17 @@ RECIPES = [
     ("C07", "break", ["C07-R3"], "pyyeti/expmint.py", "        I += I.dot(E)\n        E = E.dot(E)", "        E = E.dot(E)\n        I += I.dot(E)", "squaring order"),
     ("C07", "break", ["C07-R4"], "pyyeti/expmint.py", "        P = I2 / h\n        Q = I - P\n    else:\n        E, P = expmint(A, h)", "        P = I2 / h\n        Q = I + P\n    else:\n        E, P = expmint(A, h)", "getEPQ1 Q"),
     ("C07", "neutral", [], "pyyeti/expmint.py", "        U = b[3] * self.A3 + b[1] * self.A\n        V = b[2] * self.A2 + b[0] * self.ident", "        U = b[1] * self.A + b[3] * self.A3\n        V = b[0] * self.ident + b[2] * self.A2", "commuted"),
+    ("C07", "break", ["C07-R5"], "pyyeti/ssmodel.py", "            A, P, Q = expmint.getEPQ(self.A, h, 1, B=self.B)\n            B = P + A.dot(Q)",
+     "            A, P, Q = expmint.getEPQ(self.A, h, 1, B=self.B)\n            B = Q + A.dot(P)", "c2d foh: P and Q exchanged in z.B"),
+    ("C07", "break", ["C07-R5"], "pyyeti/ssmodel.py", "            E, P, Q = expmint.getEPQ(A, h, 0)\n            P /= 2.0", "            E, P, Q = expmint.getEPQ(A, h, 0)",
+     "d2c zoha: averaging factor dropped"),
+    ("C07", "break", ["C07-R5"], "pyyeti/ssmodel.py", "D = self.D - self.C.dot(QB)", "D = self.D + self.C.dot(QB)", "d2c tustin: feed-through sign"),
+    ("C07", "break", ["C07-R5"], "pyyeti/ssmodel.py", "            B = la.solve(self.A - I, A.dot(self.B))", "            B = la.solve(self.A + I, A.dot(self.B))", "d2c zoh: input matrix"),
+    ("C07", "break", ["C07-R5"], "pyyeti/ssmodel.py", "            I = np.eye(self.A.shape[0])\n            q = la.lu_factor(k * I - self.A)",
+     "            k = k / 2\n            I = np.eye(self.A.shape[0])\n            q = la.lu_factor(k * I - self.A)", "c2d tustin: bilinear constant"),
+    ("C07", "neutral", [], "pyyeti/ssmodel.py", "            B = P + A.dot(Q)\n            C = self.C.copy()\n            D = self.C.dot(Q) + self.D\n            return SSModel(A, B, C, D, h, method)\n\n        if method == \"foh\":",
+     "            B = P + A.dot(Q)\n            C = self.C.copy()\n            D = self.C.dot(P) + self.D\n            return SSModel(A, B, C, D, h, method)\n\n        if method == \"foh\":",
+     "c2d zoha: Q is P (same object), either name may be used"),
     # ---- C08
     ("C08", "break", ["C08-R1"], "pyyeti/ode/solveunc.py", "                        dmpfrc0 = dmpfrc1 if i_last == i - 1 else bo @ vi\n                        i_last = i\n                        _f0 = F0k - dmpfrc0", "                        dmpfrc0 = dmpfrc1 if i_last == i - 1 else bo @ vi\n                        _f0 = F0k - dmpfrc0", "i_last update dropped"),
     ("C08", "break", ["C08-R2"], "pyyeti/ode/solveunc.py", "                        V[:, i] = Fp * di + Gp * vi + Ap * F0k + Bp * F1k", "                        V[:, i] = Fp * di + Gp * vi + Ap * F1k + Bp * F1k", "generator velocity step"),
